@@ -342,13 +342,28 @@ func c16Run(c *Ctx, n int) {
 			var doc *etree.Document
 			doc, docClass = c16Doc(r, sp, kind)
 			docBytes, _ = doc.WriteToBytes()
-			switch kind {
-			case "authn":
-				out, err = sp.BuildAuthBodyPostFromDocument(relay, doc)
-			case "logout-request":
-				out, err = sp.BuildLogoutBodyPostFromDocument(relay, doc)
-			default:
-				out, err = sp.BuildLogoutResponseBodyPostFromDocument(relay, doc)
+			render := func() ([]byte, error) {
+				switch kind {
+				case "authn":
+					return sp.BuildAuthBodyPostFromDocument(relay, doc)
+				case "logout-request":
+					return sp.BuildLogoutBodyPostFromDocument(relay, doc)
+				}
+				return sp.BuildLogoutResponseBodyPostFromDocument(relay, doc)
+			}
+			out, err = render()
+			// the builders only READ the caller's document: it is unchanged afterwards and a second rendering (and a redirect
+			// built from it) carries the same message
+			if err == nil {
+				after, _ := doc.WriteToBytes()
+				out2, err2 := render()
+				c.Count("purity:document-reused")
+				rp := map[string]interface{}{"kind": kind, "endpoint": ep, "relay_state": relay, "document": string(docBytes), "document_after": string(after)}
+				if string(after) != string(docBytes) {
+					c.Violate("spec", "c16:document-argument-modified", "the caller's document is not the same after the form was built", rp)
+				} else if err2 != nil || string(out2) != string(out) {
+					c.Violate("spec", "c16:second-rendering-differs", "building the form a second time from the same document gives another page", rp)
+				}
 			}
 		}()
 		page := string(out)
